@@ -57,7 +57,7 @@ def adapter_go(nschemes, ops):
     return "\n".join(L) + "\n"
 
 packages, cases = [], []
-def add_pkg(name, nschemes, ops, global_sec=None):
+def add_pkg(name, nschemes, ops, global_sec=None, modes=(0,)):
     for op in ops:
         if op.get("inherit"):
             op["effective"] = global_sec
@@ -67,7 +67,8 @@ def add_pkg(name, nschemes, ops, global_sec=None):
     packages.append({"name": name, "spec": spec(nschemes, ops, global_sec),
                      "extra_go": {"data.go": data_go(nschemes, ops), "adapter.go": adapter_go(nschemes, ops)}})
     for i in range(len(ops)):
-        cases.append([idx, i])
+        for m in modes:
+            cases.append([idx, i, m])
 
 # all structures over 2 schemes (15)
 add_pkg("g2", 2, [{"alts": s} for s in structures(2)])
@@ -88,6 +89,16 @@ add_pkg("g20", 20, [
     {"alts": [[19], [0]]},
     {"alts": [[1, 9, 17], [7], []]},
 ])
+# operations that mention 9..12 distinct schemes: their requirement masks have two bytes (the bit index is the
+# position of the scheme among the OPERATION's schemes). Mode 1/2: only the schemes at mask positions 0,1 and 6..9
+# (and the last) are symbolic; the others are absent (1) or present and accepted (2).
+add_pkg("g12", 12, [
+    {"alts": [[i] for i in range(9)]},                       # nine single-scheme alternatives
+    {"alts": [list(range(10))]},                             # one ten-scheme conjunction
+    {"alts": [list(range(9)), [0, 8]]},                      # bits 0 and 8 shared by two alternatives
+    {"alts": [[0, 1, 2, 3, 4, 5, 6, 7], [8, 9], [10, 11]]},  # one alternative per mask byte
+    {"alts": [[11, 3], [4, 5, 6], [7, 8, 9, 10], [0, 1, 2]]},
+], modes=(1, 2))
 print(json.dumps({"packages": packages, "cases": {tier: [{"entry": "HGate", "args": cases}]},
-                  "bounds": {"requirement_structures": "all 15 structures over 2 schemes; %s over 3 schemes; global security with per-operation override / explicit empty / anonymous alternative; 20 schemes with alternatives straddling bytes 0/1/2 of the mask (indices 0,7,8,15,16,19)" % ("12 seeded of the 255" if tier == "quick" else "all 255"),
+                  "bounds": {"requirement_structures": "all 15 structures over 2 schemes; %s over 3 schemes; global security with per-operation override / explicit empty / anonymous alternative; 20 declared schemes with operations using up to six of them; five operations that mention 9..12 distinct schemes so that their masks have two bytes (presence/verdict symbolic at mask positions 0,1,6..9 and the last; the others fixed absent or fixed accepted)" % ("12 seeded of the 255" if tier == "quick" else "all 255"),
                              "per_request": "for every scheme of the operation: credential present or absent (symbolic) and the SecurityHandler's verdict accept / ErrSkipServerSecurity / other error (symbolic); schemes not used by the operation also carry symbolic credentials"}}))
